@@ -38,6 +38,8 @@ TRUSTED_BASE = [
     "hand-written Lean models; tied to the working tree only by the correspondence check (differential testing through the compiled driver)",
     "leanc-compiled driver agrees with the kernel's reading of the model definitions",
     "CPython 3.12 runtime semantics (ints, bytes/bytearray/memoryview, cp1252 codec, enum, descriptors, import system) are modelled, not verified",
+    "where coverage.source_tie is present: the Python-to-Lean translator harness/py2lean.py and the Python semantics written down in Model/PyOps.lean "
+    "(the translated source is proved equal to the hand-written model on every run; not established => correspondence only, at escalated depth)",
 ]
 
 
